@@ -758,6 +758,18 @@ pub fn c13(a: &Arena, pre: &RefState, op: &Op, post: &RefState, ret: &Ret) -> Vi
             }
             expect_dummy_for(&services(a, &gone_acts), None, &mut fail, &mut expected_new);
         }
+        Op::AddPath { v: veh, nodes } if veh.is_dummy() => {
+            touched_vehicles.insert(*veh);
+            let ns = pre.dummies.get(veh).cloned().unwrap_or_default();
+            let path: Vec<NodeIdx> = activities(a, nodes);
+            let (exp, _dropped) = ref_insert(a, &ns, &path);
+            if post.dummies.get(veh) != Some(&exp) {
+                fail("insert-semantics", format!("dummy {}: inserting [{}] into [{}] must give [{}], got {:?}", veh, names(&path), names(&ns), names(&exp), post.dummies.get(veh).map(|x| names(x))));
+            }
+            if post.formations != pre.formations {
+                fail("frame-formation", "adding a path to a dummy tour changed a formation".into());
+            }
+        }
         Op::AddPath { v: veh, nodes } => {
             touched_vehicles.insert(*veh);
             let ns = &pre.tours[veh].1;
